@@ -104,6 +104,22 @@ def render_header(r, kw, name, parts, ret, indent):
     return one
 
 
+QUOTE_PROSE = [0.08]  # share of docstrings whose prose talks about quoting (see gen_docstring)
+
+
+class quote_prose(object):
+    """context manager: raise that share (a directed stream)"""
+
+    def __init__(self, p):
+        self.p = p
+
+    def __enter__(self):
+        self.old, QUOTE_PROSE[0] = QUOTE_PROSE[0], self.p
+
+    def __exit__(self, *a):
+        QUOTE_PROSE[0] = self.old
+
+
 PROSE_TYPES = ("list of int", "sequence of str", "int or None", "``int``", "array-like", "dict, optional", "str, default 'x'",
                "callable -> bool", "{'a', 'b'} or None", "tuple of (int, str)", "file-like object", "int > 0")
 
@@ -135,7 +151,7 @@ def gen_docstring(r, params, ret, indent, style=None, quote='"""'):
     text, _ = docgen.compose(r, style, indent=indent, params=dps, returns=rt, types=with_types,
                              with_footer=r.random() < 0.15, paragraphs=r.randint(1, 2))
     rq = random.Random(r.random())
-    if rq.random() < 0.08:
+    if rq.random() < QUOTE_PROSE[0]:
         # prose that talks about quoting: a line that ends with (or holds) the *other* triple quote, or a lone quote character
         other = "'''" if quote == '"""' else '"""'
         lines = text.split("\n")
